@@ -302,6 +302,8 @@ def signal_order_oracle(case, trace):
 def protocol_oracle(case, trace):
     """C02: constructor call first; then exactly one call per row, carrying the row's inputs verbatim;
     W (or forwarded RW) for rows without outputs; nothing after the end"""
+    if case.get("kind") != "run":
+        return
     seq = [(t, r) for t, r in trace if t in ("CALL", "NEW", "ROW", "ITEM", "END")]
     if not any(t == "NEW" for t, _ in seq):
         return
@@ -395,7 +397,7 @@ SMALL16 = {"small": True}
 
 PROPS["C01"] = {
     "cases": run_family("c01", 500, 20000, [
-        {"maxdepth": 4, "budget": 16, "wrow": 0.35, "wlet": 0.25, "pC": 0.0, "pX": 0.0, "pbits": 0.12, "reads": 0.3, "shadow_out": 0.2},
+        {"maxdepth": 4, "budget": 16, "wrow": 0.35, "wlet": 0.25, "pC": 0.0, "pX": 0.0, "pbits": 0.12, "reads": 0.3, "shadow_out": 0.2, "own_counter": 0.35, "while_binds": 0.5},
         {"maxdepth": 3, "budget": 12, "wrow": 0.4, "wlet": 0.2, "pC": 0.03, "pX": 0.03, "pbits": 0.08, "reads": 0.5, "echo": 1.0, "fancy": True},
         {"maxdepth": 5, "budget": 20, "wrow": 0.3, "wlet": 0.3, "pC": 0.0, "pX": 0.0, "reads": 0.0},
         # resetRandom / random between the statements, loop bounds and while conditions that read outputs
@@ -418,7 +420,7 @@ PROPS["C01"] = {
 PROPS["C18"] = dict(PROPS["C01"])
 PROPS["C18"].update({
     "cases": run_family("c18", 400, 20000, [
-        {"maxdepth": 4, "budget": 16, "wrow": 0.4, "wlet": 0.3, "pC": 0.1, "pX": 0.1, "reads": 0.3, "shadow_out": 0.3, "declare": 0.3},
+        {"maxdepth": 4, "budget": 16, "wrow": 0.4, "wlet": 0.3, "pC": 0.1, "pX": 0.1, "reads": 0.3, "shadow_out": 0.3, "declare": 0.3, "own_counter": 0.35, "while_binds": 0.5},
         {"maxdepth": 5, "budget": 18, "wrow": 0.35, "wlet": 0.3, "pC": 0.0, "pX": 0.0, "reads": 0.0},
         # rows that fail after the driver call (a virtual signal reading Z/X, a deviating answer) with a caller that keeps iterating:
         # vars() of the rows after the error item
@@ -741,6 +743,8 @@ def c11_cases(seed, tier):
         {"n_bidir": 2, "pC": 0.15, "reads": 0.4, "declare": 0.2, "maxdepth": 3, "odd_names": True},
         {"n_bidir": 2, "pC": 0.1, "pC_out": 0.06, "reads": 0.3, "maxdepth": 2, "pbits": 0.15, "full_header": True},
         {"n_bidir": 1, "pC": 0.1, "reads": 0.7, "scope_names": 0.8, "dead_names": 0.5, "shadow_out": 0.5, "maxdepth": 3, "wlet": 0.3},
+        # expressions that read a DECLARED name (never an output of the device), loop bounds that mention the loop's own counter
+        {"n_bidir": 1, "reads": 0.5, "declare": 0.6, "read_virtual": 0.5, "own_bound": 0.5, "scope_names": 0.7, "maxdepth": 2, "wlet": 0.3},
     ])(seed, "quick")
     rng = random.Random(seed ^ 0xC11)
     for c in base:
@@ -972,7 +976,9 @@ ALPHABET = ["loop", "while", "end", "repeat", "let", "declare", "bits", "resetRa
             "C", "X", "Z", "c", "a", "Q", "A", "ite", "random", "signExt", "foo", "n", "0", "1", "07", "09", "0x1F", "0x", "0b101", "0b2",
             "9223372036854775807", "9223372036854775808", "0x7FFFFFFFFFFFFFFF", "0x8000000000000000", "0xFFFFFFFFFFFFFFFF", "0x10000000000000000",
             "0b" + "1" * 64, "0b1" + "0" * 63, "0777777777777777777777", "01000000000000000000000", "01777777777777777777777", "65", "64", "(", ")", ",", ";", "=", "!=", "<", "<<", "<=", ">", ">>", ">=",
-            "+", "-", "*", "/", "%", "&", "|", "^", "!", "~", "#", "$", "_", " ", "  ", "\t", "\r", "\n", "\n", "\r\n", "é", "汉", "\U0001F600", "٣", "a٣"]
+            "+", "-", "*", "/", "%", "&", "|", "^", "!", "~", "#", "$", "_", " ", "  ", "\t", "\r", "\n", "\n", "\r\n", "é", "汉", "\U0001F600", "٣", "a٣",
+            # runs of characters no token starts with (one Error token per character, each on its own character boundary)
+            "€€", "$é", "größe", "ждать", "汉字", "€$€", "\U0001F600\U0001F600", "é$", "@@", "1 ! 2", "A ~ 1", "4 ~", "! !", "~)"]
 
 
 def mutate_text(rng, src):
@@ -1796,3 +1802,108 @@ _c05_base = PROPS["C05"]["cases"]
 PROPS["C05"]["cases"] = lambda seed, tier: _c05_base(seed, tier) + c05_exhaustive(seed, tier)
 PROPS["C05"]["rule"] += "; plus the exhaustive small scope: every row of width 1-4 over {0,1,X,C,Z} for every assignment of column kinds (input, output, bidirectional input side, " \
                         "bidirectional expected side), preceded by a plain row (quick: every 9th, rotating with the seed; thorough: all)"
+
+
+# ------------------------------------------------------------------ more fixed-shape families (round-3 blind spots)
+
+def _sig(name, typ, bits=4, default=None):
+    return {"name": name, "typ": typ, "bits": bits, "default": ("-" if typ == "O" else "0") if default is None else default}
+
+
+def out_suffix_cases(prefix, seed):
+    """signal names that themselves end in `_out` (the expected-side column of a bidirectional D_out is D_out_out, and
+    B_out_out is NOT a column of a bidirectional B), names that differ in letter case only, headers with 17-40 columns"""
+    rng = random.Random(seed ^ 0x0075)
+    cases = []
+    specs = [
+        # (signals, header, row)
+        ([_sig("D_out", "B"), _sig("Q", "O")], "D_out D_out_out Q", "1 1 X"),
+        ([_sig("D_out", "B"), _sig("Q", "O")], "D_out_out Q", "3 X"),
+        ([_sig("B", "B"), _sig("Q", "O")], "B B_out_out Q", "1 1 X"),
+        ([_sig("B", "B"), _sig("Q", "O")], "B_out_out Q", "1 X"),
+        ([_sig("B", "B"), _sig("B_out", "B"), _sig("Q", "O")], "B B_out B_out_out Q", "1 2 3 X"),
+        ([_sig("B", "B"), _sig("B_out", "O"), _sig("Q", "O")], "B B_out Q", "1 2 X"),
+        ([_sig("B", "B"), _sig("B_out", "I"), _sig("Q", "O")], "B B_out Q", "1 2 X"),
+        ([_sig("X_out_out", "B"), _sig("Q", "O")], "X_out_out X_out_out_out Q", "1 2 X"),
+        ([_sig("_out", "B"), _sig("Q", "O")], "_out _out_out Q", "1 2 X"),
+        ([_sig("q", "O"), _sig("Q", "O"), _sig("A", "I")], "A q Q", "1 2 3"),
+        ([_sig("a", "I"), _sig("A", "I"), _sig("Q", "O")], "a A Q", "1 2 3"),
+    ]
+    for i, (sigs, hdr, row) in enumerate(specs):
+        outs = [k for k, s_ in enumerate(sigs) if s_["typ"] in ("O", "B")]
+        for j in range(3):
+            table = [[str(rng.randrange(0, 16)) for _ in outs] for _ in range(3)]
+            faults = [] if j == 0 else [(rng.randrange(1, 3), rng.choice(["swap 0 1", "subst 0 1", "subst 1 0", "dup 0"]))]
+            lay = list(outs)
+            if j == 2:
+                lay.reverse()
+            cases.append({"id": "%s-sfx-%d-%d" % (prefix, i, j), "kind": "run", "src": hdr + "\n" + row + "\n" + row + "\n(1) " + " ".join(row.split()[1:]) + "\n",
+                          "sigs": [dict(s_) for s_ in sigs], "layout": lay, "table": table, "echo": 0, "wdefault": 0, "faults": faults, "cont": 1, "max": 50, "seed": 1})
+    # wide headers: a duplicate name far to the right, and no duplicate
+    for n in (15, 16, 17, 18, 31, 40):
+        names = ["S%d" % k for k in range(n)]
+        sigs = [_sig(nm_, "I", 1) for nm_ in names] + [_sig("Q", "O", 1)]
+        for dup in (None, 0, 3, n - 1):
+            hdr = list(names)
+            if dup is not None:
+                hdr = hdr + [names[dup]]
+            hdr = hdr + ["Q"]
+            row = " ".join(["1"] * (len(hdr) - 1) + ["X"])
+            cases.append({"id": "%s-wide-%d-%s" % (prefix, n, dup), "kind": "run", "src": " ".join(hdr) + "\n" + row + "\n", "sigs": [dict(s_) for s_ in sigs],
+                          "layout": [n], "table": [["1"]], "echo": 0, "wdefault": 0, "faults": [], "max": 10, "seed": 1})
+    return cases
+
+
+def empty_program_cases(prefix):
+    """tests without any statement: the constructor still makes its one call"""
+    sigs = [_sig("A", "I", 4, "5"), _sig("B", "B", 2, "Z"), _sig("Q", "O")]
+    cases = []
+    for i, body in enumerate(["", "\n", "\n\n", "# only a comment\n", "# c", "declare V = Q + 1;\n", "declare V = Q;\n# c\n\n", "   \n\t\n", "let x = 1;\n", "resetRandom;\n",
+                              "loop(i,0)\n1 1 X\nend loop\n", "while(0)\n1 1 X\nend while\n", "loop(i,3)\nlet y = i;\nend loop\n", "repeat(0) 1 1 X\n"]):
+        for wd in (0, 1):
+            cases.append({"id": "%s-empty-%d-%d" % (prefix, i, wd), "kind": "run", "src": "A B Q\n" + body, "sigs": [dict(s_) for s_ in sigs], "layout": [2, 1],
+                          "table": [["3", "1"]], "echo": 0, "wdefault": wd, "faults": [], "max": 10, "seed": 1})
+            cases.append({"id": "%s-empty-%d-%d-s" % (prefix, i, wd), "kind": "static", "src": "A B Q\n" + body, "sigs": [dict(s_) for s_ in sigs], "layout": [2, 1],
+                          "table": [["3", "1"]], "echo": 0, "wdefault": wd, "faults": [], "max": 10, "seed": 1})
+    return cases
+
+
+def static_twins(casefn, every=4):
+    """adds, for every `every`-th run case of a family, the same test through try_iter_static"""
+    def f(seed, tier):
+        cs = casefn(seed, tier)
+        extra = []
+        for k, c in enumerate(cs):
+            if c.get("kind") == "run" and k % every == 0 and not c.get("rebits"):
+                extra.append(dict(c, id=c["id"] + "-static", kind="static", faults=[]))
+        return cs + extra
+    return f
+
+
+def _extend(prop, fn, rule_text):
+    base = PROPS[prop]["cases"]
+    PROPS[prop]["cases"] = (lambda b, g: (lambda seed, tier: b(seed, tier) + g(seed, tier)))(base, fn)
+    PROPS[prop]["rule"] = PROPS[prop]["rule"] + "; " + rule_text
+
+
+for _p in ("C06", "C11", "C13", "C03", "C12"):
+    _extend(_p, (lambda pref: (lambda seed, tier: out_suffix_cases(pref, seed)))(_p.lower()),
+            "plus fixed shapes: signal names ending in _out with their _out_out columns, names differing in letter case only (with swapped / substituted answers), headers of 15-40 columns with and without a far duplicate")
+for _p in ("C02", "C10", "C15"):
+    _extend(_p, (lambda pref: (lambda seed, tier: empty_program_cases(pref)))(_p.lower()),
+            "plus tests without any row (empty, comment-only, declare-only, zero-trip loops), dynamic and static")
+# callers that go on after a failed call, for every property whose check runs whole tests
+for _p in ("C02", "C03", "C05", "C06", "C07", "C15", "C17"):
+    PROPS[_p]["cases"] = (lambda base, pref: (lambda seed, tier: base(seed, tier) + posterr_cases(pref, seed, tier)))(PROPS[_p]["cases"], _p.lower())
+    PROPS[_p]["rule"] += "; plus the post-error family (a caller that keeps calling next() after a failed row)"
+# C05 / C02: a driver error or deviating answer in the MIDDLE of an expansion, caller goes on
+_c05b = PROPS["C05"]["cases"]
+PROPS["C05"]["cases"] = lambda seed, tier: _c05b(seed, tier) + add_faults(run_family("c05f", 120 if tier == "quick" else 5000, 0, [
+    {"pC": 0.4, "pX": 0.35, "maxdepth": 1, "reads": 0.0, "n_bidir": 1, "wrow": 0.8}]), ["err", "drop", "dup"], 1.0, cont=1.0)(seed, "quick")
+_c02b = PROPS["C02"]["cases"]
+PROPS["C02"]["cases"] = lambda seed, tier: _c02b(seed, tier) + add_faults(run_family("c02f", 120 if tier == "quick" else 5000, 0, [
+    {"pC": 0.4, "pX": 0.3, "maxdepth": 1, "reads": 0.0, "wrow": 0.8}]), ["err"], 1.0, cont=1.0)(seed, "quick")
+# C10: the static iterator on the same tests (reads of bidirectional signals, zero-width bits, ...)
+PROPS["C10"]["cases"] = static_twins(PROPS["C10"]["cases"], 3)
+PROPS["C10"]["tags"] = tuple(PROPS["C10"]["tags"]) + ("STATIC", "SROW")
+PROPS["C10"]["rule"] += "; every third test also through try_iter_static"
